@@ -83,7 +83,9 @@ pub fn run(ctx: &Ctx, ev: &mut Ev) {
             // UTF-16: surrogate arrangements at every position
             for pos in 0..len.max(1) {
                 if tiny && pos % 7 != 0 { continue; }
-                for (k, pat) in [&[0xD800u16][..], &[0xDC00], &[0xDBFF, 0xDFFF], &[0xDC00, 0xD800], &[0xD800, 0xD800, 0xDC00], &[0xD83D, 0x0041], &[0xDFFF, 0xDFFF]].iter().enumerate() {
+                for (k, pat) in [&[0xD800u16][..], &[0xDC00], &[0xDBFF, 0xDFFF], &[0xDC00, 0xD800], &[0xD800, 0xD800, 0xDC00], &[0xD83D, 0x0041], &[0xDFFF, 0xDFFF],
+                    // units after a valid pair take a different loop: pair + lone low / lone high / pair / space + lone
+                    &[0xD83D, 0xDCA9, 0xDC00], &[0xD83D, 0xDCA9, 0xD800], &[0xD800, 0xDC00, 0xDBFF, 0xDFFF], &[0xD83D, 0xDCA9, 0x0020, 0xDFFF], &[0xD83D, 0xDCA9, 0x0020, 0x0020, 0xD800], &[0xDBFF, 0xDFFF, 0xDFFF, 0x0041]].iter().enumerate() {
                     let mut u: Vec<u16> = (0..len).map(|i| [0x61u16, 0xE9, 0x4E00][(len + k) % 3] + (i % 7) as u16).collect();
                     for (j, x) in pat.iter().enumerate() { if pos + j < len { u[pos + j] = *x; } }
                     check_units(&mut drv, ev, &u, ((pos + k) * 2) % 16, true);
